@@ -132,3 +132,66 @@ def register_glob(I):
         if isinstance(m.v, str) and type(s) is str:
             return _re.match(glob_to_regex(m.v), s) is not None
         raise Unsupported("glob match on symbolic operands")
+
+
+# --------------------------------------------------------------------------------------------------- regex replace
+
+
+def _rust_expand(m, rep):
+    """regex crate replacement syntax: $N, $name, ${name}, $$."""
+    out = []
+    i = 0
+    n = len(rep)
+    while i < n:
+        c = rep[i]
+        if c != "$":
+            out.append(c)
+            i += 1
+            continue
+        if i + 1 < n and rep[i + 1] == "$":
+            out.append("$")
+            i += 2
+            continue
+        if i + 1 < n and rep[i + 1] == "{":
+            j = rep.find("}", i + 2)
+            if j < 0:
+                out.append("$")
+                i += 1
+                continue
+            name = rep[i + 2 : j]
+            i = j + 1
+        else:
+            mm = _re.match(r"[0-9A-Za-z_]+", rep[i + 1 :])
+            if not mm:
+                out.append("$")
+                i += 1
+                continue
+            name = mm.group(0)
+            i += 1 + len(name)
+        try:
+            g = m.group(int(name)) if name.isdigit() else m.group(name)
+        except (IndexError, KeyError, _re.error):
+            g = None
+        out.append(g or "")
+    return "".join(out)
+
+
+error_types = (_re.error, KeyError)
+
+
+def register_regex_replace(I):
+    @I.intrinsic("regex::Regex::replace", "regex::Regex::replace_all", "regex::Regex::replacen")
+    def _replace(I, a, cc):
+        rx = deref_all(a[0]).v
+        s = deref_all(a[1])
+        rep = deref_all(a[-1])
+        if not isinstance(rep, str):
+            raise Unsupported("regex replace with a non-string replacer")
+        count = 0 if cc.norm.endswith("replace_all") else 1
+        if cc.norm.endswith("replacen"):
+            count = a[2]
+        return rx.sub(lambda m: _rust_expand(m, rep), s, count=count)
+
+    @I.pattern(r"^<std::borrow::Cow as .*>::.*$", r"^std::borrow::Cow::into_owned$", r"^std::borrow::Cow::to_string$")
+    def _cow(I, a, cc):
+        return deref_all(a[0])
